@@ -10,7 +10,7 @@ EXTRA_CORR = {
  "C06": " Also: arrays beyond the pre-allocation cap cut at / around every element boundary near the cap and its doublings; a 20 s watchdog per parse (a parser that does not return is a violation). Every byte value as type byte in front of ten length / payload shapes.",
  "C07": " Also: an offender that pipelines large replies and never reads them; a real-socket run with CONFIG SET loops, connection churn and a witness connection with exact replies. 24 plain and TLS clients connecting at the same moment, each served on its own socket.",
  "C08": " Theorem C08_password_gate_any_transport: the same gate for connections of any transport (plain, TLS with any verified chain) and servers with further authenticators. Also explored: histories on TLS connections with and without a certificate rule. AUTH implemented by the built-in executor, by an application executor on the public Server.Auth, and by an application AuthCommandHandler replying errors as messages; commands without an executor (HELLO 3) before AUTH.",
- "C09": " Also: a foreign CA that the HOST trusts (system trust store); client-CA rotation followed by Restart (retired-CA clients refused, new-CA clients admitted). Password changes (CONFIG SET requirepass; SetRequirePass + Restart, twice) followed by clients the rule turns away; seven near-miss common names (case, U+017F, blanks, one character less / more).",
+ "C09": " Also: a foreign CA that the HOST trusts (system trust store); client-CA rotation followed by Restart (retired-CA clients refused, new-CA clients let in). Password changes (CONFIG SET requirepass; SetRequirePass + Restart, twice) followed by clients the rule turns away; seven near-miss common names (case, U+017F, blanks, one character less / more).",
  "C10": " Also: malformations and ill-formed SELECTs on a connection that has selected database 3 (the selection must survive the refusal). 28 non-float tokens incl. doubled parentheses, blanks, digit separators. Theorem C10_digit_separators_are_not_floats: a token containing an underscore is not a float of the argument grammar (plain or as a range bound).",
  "C11": " Also: a request of 1030 .. 4100 elements cut at / around every element boundary near 1024 and its doublings. Requests written as text lines cut at every byte (a line without its CR LF is a partial request).",
  "C12": " Also: replies of 513 .. 4098 elements (ZREVRANGE / ZREVRANGEBYSCORE / HKEYS / HVALS / HMGET / MGET).",
@@ -80,7 +80,7 @@ claim("C11",
       CONN_TB + "Domain: requests are arrays of non-null bulk strings (what clients send).",
       "Coq theorems (prefix-freedom, cut-anywhere trace equality) + exhaustive cut enumeration against the real loop")
 claim("C20",
-      "Theorem, for every handler, configuration, TLS admission outcome and EVERY input byte string: the span events of the connection trace are balanced (one root per iteration "
+      "Theorem, for every handler, configuration, TLS entry outcome and EVERY input byte string: the span events of the connection trace are balanced (one root per iteration "
       "finished once and last, children only inside a root and finished innermost-first, nothing left open), via a structure theorem: trace = register, complete iterations, optional "
       "closing iteration, deregister, close. Correspondence: a tracer double records the real span events for pipelines mixing every outcome x every ending; the same balance predicate runs as a monitor.",
       CONN_TB + "The tracer library itself (go-tracing) is replaced by a double.",
@@ -177,7 +177,7 @@ claim("C15",
       "with Stop's two snapshots (registry, then live set) as two atomic steps and 'a closed socket ends its goroutine's read' assumed of the Go runtime; one forced schedule (stoprace) ties that step to the code.",
       "Coq inductive invariant over all schedules of a lifecycle transition system + model-vs-server runs of lifecycle sequences")
 claim("C19",
-      "Theorems: for EVERY input byte string, handler and admission outcome the connection trace registers once first (iff admitted), deregisters and closes exactly once last, and touches "
+      "Theorems: for EVERY input byte string, handler and entry outcome the connection trace registers once first (iff let in), deregisters and closes exactly once last, and touches "
       "neither registry nor socket in between; a rejected certificate only closes; the loop always ends. Over all schedules of the lifecycle system a finished goroutine has closed its socket "
       "and a failed handshake / rejected certificate releases that connection without touching the registry. Runtime half observed: scripted connections with every request outcome x every "
       "ending (boundary, mid-request, protocol error, reset, write failure), and churn over real sockets - 11 ending modes (FIN, mid-request FIN, RST, QUIT, malformed, client stops "
@@ -186,7 +186,7 @@ claim("C19",
       LIFE_TB + CONN_TB + "Partial: what the kernel does with a closed socket, and baselines polled with a 4 s grace period, are observations.",
       "Coq theorems (release on every exit path; lifecycle invariant) + churn over real sockets with goroutine/descriptor/registry baselines")
 claim("C09",
-      "Theorems: a TLS connection that is not admitted (common-name rule configured and the verified chain's LEAF does not carry the name, or no certificate) produces the trace [close] - "
+      "Theorems: a TLS connection that is not let in (common-name rule configured and the verified chain's LEAF does not carry the name, or no certificate) produces the trace [close] - "
       "nothing is registered, read, executed or answered - for every input; admission compares the leaf only (names on intermediates are irrelevant); over all schedules a failed or rejected "
       "handshake ends only that connection and leaves listeners, accept loops, registry and all other connections unchanged. The finite space is enumerated completely against real "
       "crypto/tls: {no rule, rule, rule+password} x {none, plain text, self-signed, foreign CA, expired, wrong name, name only on an intermediate, valid, valid under a neutral intermediate} "
